@@ -1154,7 +1154,11 @@ func c14Concurrent(c *Ctx, r *rng.R, round int) {
 }
 
 func runC14(c *Ctx) {
-	c.Res.Rule = "(a) random op lists on memdb.New(cmp, capacity) for bytewise/lenfirst/reverse user comparers and the internal-key comparer over them: Put (new keys and overwrites that change the value length; arguments poisoned afterwards), Delete of present/absent keys, Get/Find/Contains, Len/Size/Capacity-Free, Reset and reuse, up to 4 live iterators (nil range, half-open, inverted and empty ranges) moved at random BETWEEN the mutations; every answer is compared with a sorted-slice oracle kept in Go (key-based cursor for iterators) and, line by line, with the ideal Lean model and with the array-level Lean model GoLevel.MemArr (tower heights reproduced from memdb's fixed seed); the array-level model is also compared with the private arrays of the table (n, kvSize, maxHeight, len and FNV of kvData/nodeData/prevNode after every Len/Reset and at the end of the case; the node index of the iterator after every move), and at the end of every case it answers Next/Prev from a node that was just deleted (expected = what the Go iterator does). Next/Prev on an iterator that was positioned before a Reset are generated (generation counter, D31/D32): the contract is that the iterator is exhausted in the direction of the move (oracle: c14Oracle.moveStale). Next on an iterator whose current node was deleted follows the dead node's pointer: the ideal Lean model has no dead nodes, so in the shared stream that iterator is re-positioned first and the move is exercised at the end of every case against the array-level model only. One evaluation per op; non-trivial = the table was non-empty when the op ran; distinct by (comparer, op, key, table size). (b) one writer (Put of new keys and overwrites, values carry key and version; in half of the rounds also Delete of the keys that are not marked stable, in half of them also a rare Reset, bracketed by a sequence counter the readers can see) with 4-16 reader goroutines doing Get/Find and ranged iterator walks; the oracle is C14.concurrent_readers: no panic; every pair yielded was issued by the writer with that version (it may have been deleted since: iterators walk on through dead nodes) and, when no Reset overlapped the call, was put since the last Reset; every yielded key inside the range, on Next and on Prev; Next strictly increasing and Prev strictly decreasing as long as no Reset intervenes; when a whole Reset lies between two moves the second move finds the iterator exhausted; versions read by Get never go back; a key that is never deleted is found by Get once its Put has returned and is not missed by a full scan that began after it (no Reset in between); final contents exact (keys deleted or reset away are gone). One evaluation per run; non-trivial = iterators yielded pairs while the writer ran. The race detector is not available inside vh (no -race build of the harness): data races that do not corrupt an answer are not detected here."
+	c.Res.Rule = "(a) random op lists on memdb.New(cmp, capacity) for bytewise/lenfirst/reverse user comparers and the internal-key comparer over them: Put (new keys and overwrites that change the value length; arguments poisoned afterwards), Delete of present/absent keys, Get/Find/Contains, Len/Size/Capacity-Free, Reset and reuse, up to 4 live iterators (nil range, half-open, inverted and empty ranges) moved at random BETWEEN the mutations; every answer is compared with a sorted-slice oracle kept in Go (key-based cursor for iterators) and, line by line, with the ideal Lean model and with the array-level Lean model GoLevel.MemArr (tower heights reproduced from memdb's fixed seed); the array-level model is also compared with the private arrays of the table (n, kvSize, maxHeight, len and FNV of kvData/nodeData/prevNode after every Len/Reset and at the end of the case; the node index of the iterator after every move), and at the end of every case it answers Next/Prev from a node that was just deleted (expected = what the Go iterator does). Next/Prev on an iterator that was positioned before a Reset are generated (generation counter, D31/D32): the contract is that the iterator is exhausted in the direction of the move (oracle: c14Oracle.moveStale). Next on an iterator whose current node was deleted follows the dead node's pointer: the ideal Lean model has no dead nodes, so in the shared stream that iterator is re-positioned first and the move is exercised at the end of every case against the array-level model only. One evaluation per op; non-trivial = the table was non-empty when the op ran; distinct by (comparer, op, key, table size). (b) one writer (Put of new keys and overwrites, values carry key and version; in half of the rounds also Delete of the keys that are not marked stable, in half of them also a rare Reset, bracketed by a sequence counter the readers can see) with 4-16 reader goroutines doing Get/Find and ranged iterator walks; the oracle is C14.concurrent_readers: no panic; every pair yielded was issued by the writer with that version (it may have been deleted since: iterators walk on through dead nodes) and, when no Reset overlapped the call, was put since the last Reset; every yielded key inside the range, on Next and on Prev; Next strictly increasing and Prev strictly decreasing as long as no Reset intervenes; when a whole Reset lies between two moves the second move finds the iterator exhausted; versions read by Get never go back; a key that is never deleted is found by Get once its Put has returned and is not missed by a full scan that began after it (no Reset in between); final contents exact (keys deleted or reset away are gone). One evaluation per run; non-trivial = iterators yielded pairs while the writer ran. The race detector is not available inside vh (no -race build of the harness): data races that do not corrupt an answer are not detected here. (c) 300 op lists under a lawful comparer that is not injective on bytes (ASCII case folded, leading zeros ignored: equal keys of different lengths): Put of an equal key replaces the pair; Get/Delete/iteration/Len/Size against a map keyed by the canonical form, after every operation (implementation-side oracle only: the Lean models assume equal => same bytes)."
+	c14NonInjective(c, c.Scale(300, 5000))
+	if len(c.Res.Violations) > 0 {
+		return
+	}
 	ncases := c.Scale(4000, 24000)
 	for i := 0; i < ncases && c.TimeLeft(); i++ {
 		r := c.R.Fork()
